@@ -111,11 +111,20 @@ class C12(core.Check):
         if repl:
             case["repl"] = repl
             case["sched"] = []
-        if rr.random() < 0.08:
+        if rr.random() < 0.14:
             # an EARLIER execution in the same process that ends inside a structure (exit, error): the next program gets a
             # new Context and must start from -- and return to -- the initial depth
             case["prelude"] = rr.choice(["5 ( n 3 = [ Q ] )", "3 λ Q ; †", "2 ( 1 0 % )", "4 λ 1 0 % ; †", "@q:1| Q ; 5 @q;",
-                                         "3 ƛ Q ; ,", "2 ( 3 ( Q ) )", "1 { Q }"])
+                                         "3 ƛ Q ; ,", "2 ( 3 ( Q ) )", "1 { Q }",
+                                         # ... or that finishes normally after an early exit written in an if-branch under each
+                                         # kind of construct (whatever the parser / transpiler remembers of it must not leak)
+                                         "3 λ 1 [ X ] 2 ; †", "3 λ 0 [ 5 | X ] n ; †", "2 ( n 1 = [ X ] )", "2 ( 1 [ x ] )",
+                                         "⟨1|2⟩ ƛ 1 [ X ] ; ,", "@w:1| 1 [ X ] ; 2 @w;", "1 →ka { ←ka | 0 →ka 1 [ X ] }",
+                                         "3 λ 1 [ X ] 2 ; † 2 ( 1 [ X ] )"])
+        elif rr.random() < 0.15:
+            # ... or ANOTHER generated program of the same grammar (tables kept by the parser / transpiler across programs
+            # -- memoised branches, cached lowerings -- show when two programs share pieces of text)
+            case["prelude"] = progs.render_body(progs.gen_program(sub_rng(seed, self.id, run, "prelude"), cfg))
         rf = sub_rng(seed, self.id, run, "faults")
         if rf.random() < 0.3:
             # element failure at the k-th call of a seeded element function: the program either aborts (not judged) or
